@@ -675,12 +675,14 @@ BOUNDARY_SIZES = [32, 40, 48, 64, 72, 128, 248, 256, 264, 504, 512, 520, 1016, 1
 
 
 def legal_sems(plan, info, fs):
-    """semantics the random stream may use on this plan (avoids the KNOWN defects F-A / F-B / F-I and
-    gc:markcompact-nonmoving-dead, gc:concimmix-nonmoving-not-reset)"""
+    """semantics the random stream may use on this plan (avoids the KNOWN defects F-B / F-C / F-I and
+    gc:markcompact-nonmoving-dead; F-A and gc:concimmix-nonmoving-not-reset are repaired by fix: commits, so
+    NonMoving is generated on those plans again)"""
     s = [x for x in ("Default", "Immortal", "Los") if x in info["allocmap"]]
     if "NonMoving" in info["allocmap"]:
         if fs == "fs_imm_nonmoving" or (fs in ("fs_main", "fs_plain", "fs_small") and
-                                        plan in ("Immix", "NoGC")):
+                                        plan in ("Immix", "NoGC", "SemiSpace", "MarkSweep", "PageProtect",
+                                                 "ConcurrentImmix")):   # generational plans: F-B
             s.append("NonMoving")
     for x in ("Code", "ReadOnly", "LargeCode"):
         if x in info["allocmap"]:
